@@ -24,14 +24,18 @@ def main(only=None):
         name = os.path.basename(d)
         if only and not any(o in name for o in only):
             continue
-        for prop in m.get('detected_by', [m['property']]):
-            args = [os.path.join(ROOT, 'tools', 'seeded.py'), os.path.join(d, 'patch.diff'), prop]
+        if m.get('missed'):
+            print('%-45s breaks %s  recorded as MISSED (not re-run)' % (name, m['property']))
+            continue
+        for prop in (m.get('checked_props') or [m['property']]):
+            args = [sys.executable, os.path.join(ROOT, 'tools', 'seeded.py'), os.path.join(d, 'patch.diff'), prop]
             if m.get('only'):
+                # the units that reported this change when it was last validated in full (tools/seed_units.py)
                 args += ['--'] + sum((['--only', o] for o in m['only']), [])
             r = subprocess.run(args, capture_output=True, text=True)
             ok = r.returncode == 1
-            print('%-28s %s  check %s exit %d  %s' % (name, 'breaks ' + m['property'], prop, r.returncode, 'DETECTED' if ok else 'MISSED'))
-            if not ok and prop in m.get('must_detect', [prop]):
+            print('%-45s breaks %s  check %s exit %d  %s' % (name, m['property'], prop, r.returncode, 'DETECTED' if ok else 'MISSED'), flush=True)
+            if not ok:
                 bad += 1
     for diff in sorted(glob.glob(os.path.join(ROOT, 'selftest', 'benign', '*.diff'))):
         name = os.path.basename(diff)
